@@ -20,6 +20,7 @@ FAIL_MSGS = [
     ("decreases not satisfied", "decreases"),
     ("could not prove termination", "decreases"),
     ("precondition not satisfied", "requires"),
+    ("precondition not met", "requires"),       # vstd's wording for built-in preconditions ("index in bounds for this access")
     ("requires not satisfied", "assert"),        # the `requires` of an `assert(..) by(nonlinear_arith) requires ..` step of a hint
     ("assertion failed", "assert"),
     ("possible arithmetic underflow/overflow", "overflow"),
